@@ -152,4 +152,19 @@ CLAIMS['C18'] = {
             'are not under contract; violations are accompanied by a native witness search through the framework test '
             'clients',
 }
+CLAIMS['C13'] = {
+    'text': 'Frame conditions of the whole server-side chain dispatch() -> _handle_request -> _handle_rpc_request -> '
+            '_handle_rpc_method (both dispatchers) are PROVED: every heap cell written on any path (directly, by an inlined '
+            'callee or on behalf of a callee contract) belongs to an object allocated by that very call; modifies is the '
+            'ghost trace only. Hence no field of the dispatcher, registry, method, validator or any other pre-existing '
+            'object changes and none can come to reference the context or a per-request object (nothing is retained), and '
+            'the response - a function of the inputs and the oracle outcomes by the C01-C03 postconditions - cannot depend '
+            'on earlier dispatches.',
+    'note': 'not decided by this technique: the quantifier over THREAD schedules (single-task reasoning only; the frame '
+            'shows there is no shared library state a second thread could observe being written); CPython-level retention '
+            '(reference cycles, tracebacks, logging handlers) is outside the heap model; Method.bind / the validators are an '
+            'assumed contract here (their lru_cache on signature() retains (validator, method, exclude-tuple) keys - bounded '
+            'by the number of methods, not by the number of requests; argued, not proved); user callables (methods, '
+            'middlewares, error handlers) may retain what they like',
+}
 NOT_CLAIMED = {}
